@@ -12,6 +12,8 @@ mod awrite;
 #[cfg(feature = "io")]
 mod bio;
 mod alloc;
+#[cfg(all(feature = "alloc", feature = "half"))]
+mod disp;
 #[cfg(feature = "std")]
 mod sinks;
 
@@ -49,7 +51,11 @@ fn cmd_cases(args: &[String]) -> i32 {
             c["exp"].as_object_mut().unwrap().remove("sinkids");
             c["exp"]["sink"] = abs::bytes(&b);
         }
-        if !abs::matches(&obs, &c["exp"]) {
+        #[cfg(all(feature = "alloc", feature = "half"))]
+        let ok = if c["fam"] == "display" { disp::matches(&obs, &c["exp"]) } else { abs::matches(&obs, &c["exp"]) };
+        #[cfg(not(all(feature = "alloc", feature = "half")))]
+        let ok = abs::matches(&obs, &c["exp"]);
+        if !ok {
             bad += 1;
             writeln!(out, "{}", json!({"case": c, "obs": obs})).unwrap();
         } else if samples.len() < 3 || (n % 50021 == 0 && samples.len() < 8) {
